@@ -95,6 +95,32 @@ func lessShape(fn *ssa.Function) (field, op string, why string) {
 	if fx == "" || fx != fy {
 		return "", "", "comparison operands are not the same field of two elements"
 	}
+	// a tie-break (`if a.K == b.K { return a.T < b.T }; return a.K < b.K`) may only be taken when the primary keys are
+	// equal: otherwise the secondary key decides between elements whose primary keys differ and the order is not by K
+	for _, b := range all {
+		if b == cmp {
+			continue
+		}
+		blk := b.Block()
+		if len(blk.Preds) != 1 {
+			continue
+		}
+		iff, ok := blk.Preds[0].Instrs[len(blk.Preds[0].Instrs)-1].(*ssa.If)
+		if !ok {
+			continue
+		}
+		c, ok := iff.Cond.(*ssa.BinOp)
+		if !ok {
+			continue
+		}
+		kx, _ := elemField(c.X)
+		ky, _ := elemField(c.Y)
+		onTrue := blk.Preds[0].Succs[0] == blk
+		eq := (c.Op == token.EQL && onTrue) || (c.Op == token.NEQ && !onTrue)
+		if kx == fx && ky == fx && !eq {
+			return fx, "", "the tie-break on the secondary key is taken when the primary keys (" + fx + ") differ, so the order is not by " + fx
+		}
+	}
 	pi, pj := ssa.Value(fn.Params[0]), ssa.Value(fn.Params[1])
 	o := ""
 	switch cmp.Op {
@@ -491,6 +517,12 @@ func checkC03(p *Program, r *Result) {
 	checkReloopAfterLoad(p, r, ni)
 	r.rule("C03.h", "repeating a read gives the same sequence: slices of the cached Info are never filtered or sorted in place", 1)
 	checkInfoReadOnlyAs(p, r, "C03.h")
+	r.rule("C03.i", "an in-place filter of an iterator field is stored back into the field", 1)
+	checkInPlaceFilterStoredBack(p, r, "C03.i")
+	r.rule("C03.k", "compaction of the pending queue moves, shortens and resets together", 0)
+	checkCompactionAtomic(p, r, "C03.k")
+	r.rule("C03.s", "the needs-sorting decision follows a running maximum of the chunk's log times", 0)
+	checkSortingFlag(p, r, "C03.s")
 	r.rule("C03.g", "the yielded record and the load trigger are those of the queue entry at the cursor", 0)
 	checkCursorDiscipline(p, r, "C03.g")
 }
